@@ -276,6 +276,13 @@ def _counting_loops_as_for(stmts):
     return out if changed else stmts
 
 
+class _ModScope:
+    """name-resolution scope of a module (used while a module-level constant expression is built inside a function graph)"""
+    def __init__(self, mod):
+        self.mod = mod
+        self.cls = None
+
+
 class FuncGraph:
     """Term graph of one function."""
 
@@ -842,10 +849,28 @@ class FuncGraph:
                     return const(-v.operand.value, node, self.fn)
                 if isinstance(v, ast.Constant) and isinstance(v.value, (int, float, str, bool, type(None))):
                     return const(v.value, node, self.fn)
+                # a module-level constant EXPRESSION of library constants / functions only (`_LOG_2PI = np.log(2 * np.pi)`) is that expression
+                if v is not None and isinstance(v, (ast.BinOp, ast.Call, ast.UnaryOp, ast.Attribute)) and len(list(ast.walk(v))) <= 25 and self._pure_library_expr(v, r[1]):
+                    saved = self.cur_fn
+                    self.cur_fn = _ModScope(r[1])
+                    try:
+                        return self.expr(v, {})
+                    finally:
+                        self.cur_fn = saved
             return self.mk('ref', (r,), node)
         if name in BUILTINS:
             return self.mk('ref', (('builtin', name),), node)
         return self.mk('unknown', ('name', name), node)
+
+    def _pure_library_expr(self, v, mod):
+        for x in ast.walk(v):
+            if isinstance(x, ast.Name):
+                r = self.prog.lookup(mod, x.id)
+                if not isinstance(r, (Lib, Mod)):
+                    return False
+            elif isinstance(x, (ast.Lambda, ast.Subscript, ast.Starred, ast.NamedExpr, ast.Await, ast.Yield)):
+                return False
+        return True
 
     def load_attr(self, e, base, env):
         if isinstance(e.value, ast.Name):
@@ -1188,8 +1213,8 @@ class FuncGraph:
                 return self.mk('binop', ('Div', const(1, e, self.fn), args[0]), e)
             if lib == 'numpy.negative':
                 return self.mk('unop', ('USub', args[0]), e)
-            if lib in ('numpy.shape', 'numpy.ndim'):
-                return self.mk('attr', (args[0], lib.split('.')[1]), e)
+            if lib in ('numpy.shape', 'numpy.ndim', 'numpy.real', 'numpy.imag'):
+                return self.mk('attr', (args[0], lib.split('.')[1]), e)          # np.real(x) is x.real
             if f.op == 'ref' and f.args[0] == ('builtin', 'bool') and (args[0].op in ('cmp', 'bool') or (args[0].op == 'unop' and args[0].args[0] == 'Not')):
                 return args[0]          # bool(a >= b) is the test itself
             if f.op == 'ref' and f.args[0] == ('builtin', 'len') and args[0].op == 'attr' and args[0].args[1] == 'shape':
